@@ -582,10 +582,15 @@ pub fn sweep_race_scenario(p: &Profile) -> BoxedStrategy<Case> {
                 proptest::collection::vec(action, 1..=2),
                 proptest::sample::select(vec![NS, NS + 1, 2 * NS, 3 * NS]),
                 proptest::collection::vec(ops, 0..8),
+                proptest::bool::weighted(0.3),
             )
-                .prop_map(move |(cfg, prefix, m, ttl, site, nth, actions, extra, suffix)| {
+                .prop_map(move |(cfg, prefix, m, ttl, site, nth, actions, extra, suffix, bulk)| {
                     let m = m.min(cfg.keys.len() as u64);
                     let mut v = prefix;
+                    // a sweep over hundreds of due keys (same expiry second as the table keys)
+                    if bulk && cfg.max_cost > 1 << 30 && !cfg.defaults {
+                        v.push(Op::BulkWide { n: 270, ttl });
+                    }
                     for k in 0..m {
                         v.push(Op::Insert { k, cost: 1, ttl, tag: 1 });
                     }
